@@ -597,7 +597,9 @@ def denoteAttr (c : DCtx) (isComp : Bool) (tagN : Node) (allAttrs : List Node) (
         match d.value with
         | .mk .ident as ks => { acc with vslots := some (.mk .ident as ks) }
         | .mk .object as ks => { acc with vslots := some (.mk .object as ks) }
-        | _ => acc
+        -- any other expression (`this.$slots`, `getSlots()`, `c ? a : b`) is a slots object like an identifier: its entries are
+        -- merged beside `default` (it is spread); a value shape outside the directive forms (absent, a string) denotes nothing
+        | e => if d.ood then acc else { acc with vslots := some e }
       else if d.name == "html" then addProp c (addFeat (if d.ood then addFeat acc "ood-directive-value" else acc) "has-vhtml-vtext") "innerHTML" d.value
       else if d.name == "text" then addProp c (addFeat (if d.ood then addFeat acc "ood-directive-value" else acc) "has-vhtml-vtext") "textContent" d.value
       else if d.name == "model" then
